@@ -143,6 +143,8 @@ def _control_spec(rng, k):
     import cirq
 
     cdims = [int(rng.choice([2, 2, 2, 3])) for _ in range(k)]
+    if rng.random() < 0.25:
+        cdims[0] = int(rng.choice([4, 5, 6]))  # room for value sets that are not evenly spaced
     mode = int(rng.integers(4))
     if mode == 0:
         return cdims, None, [tuple([1] * k)]
@@ -209,6 +211,15 @@ def sec_control(ctx, rng, case):
     cop = g.on(*tq).controlled_by(*cq, **({"control_values": cvarg} if cvarg is not None else {}))
     ok = list(cop.qubits) == cq + tq and L.allclose(cirq.unitary(cop), want, 1e-7)
     ctx.check(ok, "controlled==block-matrix", "C08:controlled_by:" + name, "", **wit)
+    # the same block matrix through the operation's action on a state (a separate implementation from its matrix)
+    if want.shape[0] <= 256:
+        psi = L.random_state(rng, want.shape[0])
+        for what, o in (("controlled_by", cop), ("ControlledGate", cg.on(*(cq + tq)) if cirq.num_qubits(cg) == len(cq) + len(tq) else None)):
+            if o is None:
+                continue
+            got = cirq.Circuit(o).final_state_vector(initial_state=psi.astype(np.complex128), qubit_order=cq + tq, dtype=np.complex128)
+            ctx.check(L.allclose(got, want @ psi, 1e-7), "controlled-action==block-matrix", "C08:controlled-action:" + name,
+                      lambda: "%s applied to a state deviates from the block matrix by %.3g" % (what, L.maxdiff(got, want @ psi)), via=what, **wit)
     # control-values algebra: expand() enumerates exactly the allowed tuples; validate accepts matching shapes
     cvobj = cg.control_values if isinstance(cg, cirq.ControlledGate) and cg.num_controls() == k else None
     if cvobj is not None:
@@ -335,6 +346,11 @@ def sec_predicates(ctx, rng, case):
                           "equal_up_to_global_phase(atol=%g) but matrices differ up to phase by %.3g" % (atol, L.phase_diff(A, B)), atol=atol, **wit)
             if w1 == w2 and cirq.equal_up_to_global_phase(a.gate, b.gate, atol=atol):
                 ctx.check(L.phase_diff(A, B) <= 100 * atol + _ISCLOSE_RTOL, "equal_up_to_global_phase=>phase-equal", "C08:eq-up-to-phase-unsound-gate", "", atol=atol, **wit)
+    # the predicates are questions, not edits: both operations still have their catalogue matrices afterwards
+    for nm, o, sp, pp in (("a", a, s1, p1), ("b", b, s2, p2)):
+        uo = cirq.unitary(o.gate, None)
+        ctx.check(uo is not None and L.allclose(uo, sp.ref(pp), 1e-7), "predicates-read-only", "C08:operand-changed-by-predicate:" + sp.name,
+                  "after the predicate calls operand %s reports another matrix than before" % nm, **wit)
     ctx.distinct((s1.name, _pk(p1), tuple(w1), s2.name, _pk(p2), tuple(w2)), nontrivial=not (L.allclose(A, np.eye(8), 1e-6) or L.allclose(B, np.eye(8), 1e-6)))
     ctx.sample({"a": (s1.name, _pk(p1), w1), "b": (s2.name, _pk(p2), w2), "commutes": str(c)})
 
